@@ -86,11 +86,34 @@ pub fn set_context(s: Option<String>) {
         t.set(was);
     });
 }
+thread_local! {
+    static IN_SUBJECT: Cell<i32> = const { Cell::new(0) };
+}
+static CURRENT_CHECK: std::sync::OnceLock<String> = std::sync::OnceLock::new();
+/// called by `util::catch` around every call into the subject
+pub fn subject_depth(d: i32) {
+    let _ = IN_SUBJECT.try_with(|c| c.set(c.get() + d));
+}
+/// the check this process runs (names the property of an allocation-cap verdict without a case context)
+pub fn set_current_check(id: &str) {
+    let _ = CURRENT_CHECK.set(id.to_string());
+}
 fn on_cap(n: usize) {
     // A request this large would abort the process on failure (or take the machine down on
     // success): record the case being run as a replayable violation and stop. The context is the
     // JSON replay case set by the check before it ran the case.
-    let ctx = CAP_CONTEXT.try_with(|c| c.borrow().clone()).ok().flatten().unwrap_or_else(|| "null".into());
+    let in_subject = IN_SUBJECT.try_with(|c| c.get()).unwrap_or(0) > 0;
+    let ctx = match CAP_CONTEXT.try_with(|c| c.borrow().clone()).ok().flatten() {
+        Some(c) => c,
+        None if in_subject => format!("{}|null", CURRENT_CHECK.get().cloned().unwrap_or_else(|| "C04".into())),
+        None => {
+            // no case of the subject is running on this thread: the request is the harness's own
+            // (e.g. an exploration frontier that outgrew its bound) - a machinery error, never a verdict
+            crate::report::outln(&format!("MACHINERY-ERROR: the harness itself requested a single allocation of {} bytes (no case in progress); reduce the bound", n));
+            eprintln!("MACHINERY-ERROR: the harness itself requested a single allocation of {} bytes", n);
+            std::process::exit(2);
+        }
+    };
     let (prop, case) = match ctx.split_once('|') {
         Some((p, c)) => (p.to_string(), c.to_string()),
         None => ("C04".to_string(), ctx),
